@@ -52,9 +52,9 @@ rule Third {
 `
 
 type c12KB struct {
-	name  string
-	text  string
-	prog  *hx.Program // nil: differential only
+	name string
+	text string
+	prog *hx.Program // nil: differential only
 }
 
 func c12World() *ref.World {
@@ -123,10 +123,10 @@ func (r *eofWithDataReader) Read(p []byte) (int, error) {
 }
 
 type traceWriter struct {
-	buf    bytes.Buffer
-	bounds []int
-	calls  int
-	failAt int // -1 never
+	buf     bytes.Buffer
+	bounds  []int
+	calls   int
+	failAt  int // -1 never
 	partial bool
 }
 
